@@ -12,7 +12,7 @@ NEED_ACTIONS = ["DoDecodeLayout", "DoEmit", "DoMutateBody", "DoMutateTable", "Do
                 "DoDecode", "DoValidate", "DoMetadata", "DoApply"]
 # a rejection for one of these reasons means harness and specification disagree about the
 # vocabulary or the order of events: a tool error, never a verdict about the code
-TOOL_WHYS = {"ok", "out-of-order", "harness-selfcheck", ""}
+TOOL_WHYS = {"ok", "err", "out-of-order", "harness-selfcheck", "incomplete-run", ""}
 
 
 def gen_scripts(tier, work):
@@ -59,11 +59,13 @@ def key_of(b):
 def run(prop, tier, replay):
     work = OUT / "c11"
     work.mkdir(parents=True, exist_ok=True)
+    # (read before Report() clears out/replay/<id>, where the file usually lives)
+    replayed = json.loads(open(replay).read())["replay"]["script"] if replay else None
     rep = Report(prop, tier, "exploration")
     build_harness()
     mc = None
     if replay:
-        scripts, exported = [json.loads(open(replay).read())["replay"]["script"]], []
+        scripts, exported = [replayed], []
     else:
         mc = run_tlc("MCStbcContainer", "MCStbcContainer", workers=8, coverage=True, timeout=2400, tag="mc-c11")
         cov = mc.get("action_coverage", {})
@@ -83,8 +85,8 @@ def run(prop, tier, replay):
     if len(runs) != len(allscripts) or any(r[0]["i"] != i for i, r in enumerate(runs)):
         raise ToolError(f"{len(allscripts)} scripts but {len(runs)} recorded runs")
     verdict, _ = validate_trace("StbcContainerTrace", tr, tag="trace-c11", timeout=3600)
-    if verdict["events"] != len(rows):
-        raise ToolError("trace validation did not consume every event")
+    if verdict["events"] != len(rows) or not verdict["complete"]:
+        raise ToolError("trace validation did not consume every event / the last run is incomplete")
     starts, n = [], 0
     for r in runs:
         starts.append(n)
